@@ -28,6 +28,7 @@ func init() {
 		// generous internal deadline: the run takes 1-2 minutes on an idle machine and several times that next to other jobs
 		QuickBudget: 900,
 		Rule: "G1 capture/shadowing: all combinations of {assignment before definition, between definition and call, after the first call} x 12 body shapes (read, :=, +=, derived local, inner closure created before a local reassignment, inner assignment, closure returned and called later, sibling closures sharing a frame, two-variable shadowing, closure over a parameter, nested definition scopes) x wrapper nesting 0..2; " +
+			"G18 variables named like names of the root scope: 20 names (built-in prototypes, true/false/nil, kernel functions) x 7 ways of binding them in a function x closures nested 0..3 levels below that read them; " +
 			"G17 parameters are bound per call, for every kind of expression: 120 expression templates over the parameters (literals with computed parts, expansions, chains with chain arguments, calls with keyword expansion, indexing and slicing, conditionals, interpolation, ranges, function / method / iterator literals called at once, try chains; 5 parameter signatures) x every sequence of 2 (thorough 3) argument tuples out of 4, each call compared with a function literal written for that one call; " +
 			"G16 parameters that receive nothing: 7 call shapes (keyword left out, nested literals with the same keyword, method, iterator, positional left out, chain block, variable assigned later) x 4 names (incl. names of built-in top-level functions) x {no, int, nil, function} variable of that name visible from the defining scope x nesting 0..1; " +
 			"G15 rebinding to the same object: 13 values x 12 ways of binding a name again in an inner scope to the object (or an equal cached value) the enclosing variable of that name holds x 2 later reassignments of the enclosing variable x nesting 0..1, a closure made in the inner scope read before and after the reassignment; " +
@@ -864,6 +865,38 @@ func genG16(emit func(tcase)) {
 	}
 }
 
+// G18: a variable named like a name of the root scope (built-in prototypes, constants, kernel functions) is a variable
+// like any other: bound as a parameter / keyword parameter / local / block parameter / iterator parameter of an
+// enclosing function, it is what closures nested 1..3 levels below read, and the root name is back outside.
+func genG18(emit func(tcase)) {
+	names := []string{"Int", "Str", "Arr", "Obj", "Map", "Err", "Kernel", "Iterable", "Either", "true", "false", "nil", "assert", "import", "invite!", "Comparable", "Func", "Range", "StopIterErr", "x"}
+	binders := []struct{ name, open, close string }{
+		{"parameter", "{|N| ", "}(VAL)"},
+		{"keyword-parameter", "{|N: 0| ", "}(N: VAL)"},
+		{"keyword-default", "{|N: VAL| ", "}()"},
+		{"local", "{|| N := VAL; ", "}()"},
+		{"block-parameter", "[VAL]@{|N| ", "}[0]"},
+		{"method-parameter", "{f: m{|N| ", "}}.f(VAL)"},
+		{"iterator-parameter", "<{|N| yield ", "}>.new(VAL).next"},
+	}
+	for _, n := range names {
+		for _, b := range binders {
+			for depth := 0; depth <= 3; depth++ {
+				inner := n
+				for d := 0; d < depth; d++ {
+					inner = "{|| " + inner + "}()"
+				}
+				r := strings.NewReplacer("N", n, "VAL", "41")
+				src := "before := " + n + ".repr\nv := " + r.Replace(b.open) + inner + r.Replace(b.close) + "\n[v, " + n + ".repr == before]"
+				if n == "x" {
+					src = "x := 0\n" + src
+				}
+				emit(tcase{Family: "G18/" + b.name, Src: src, Val: "[41, true]", NT: true})
+			}
+		}
+	}
+}
+
 // G17: parameters are bound per call - EVERY kind of expression written over the parameters of a function gives, on every
 // call, what a function literal written for that one call gives (another syntax node, evaluated once; differential, no model):
 // a catalogue of expression templates covering the syntax (literals with computed parts, expansions, chains with chain
@@ -998,6 +1031,7 @@ func gen(thorough bool, emit func(tcase)) {
 	genG14(emit)
 	genG15(emit)
 	genG16(emit)
+	genG18(emit)
 	if thorough {
 		genG17(3, emit)
 	} else {
